@@ -121,6 +121,117 @@ theorem no_panic : NoPanicStatement genCfg := by
   intro F wPix hPix w h cellW cellH hcw hch
   exact ⟨_, resizeDimsWith_std F wPix hPix w h cellW cellH hcw hch⟩
 
+/-! ## Pixels of block-rendered images -/
+
+section pixels
+open VaxisModel.Model.Blocks
+
+/-- The alpha thresholds of the source: `transparentEnough = 50`, compared with `<` in every arm of
+    the half-block switch, and `a < 50` in the full-block renderer (regenerated facts). -/
+theorem thresholds : transparentEnough = 50 ∧ fullBlockCmp = (.lt, 50) := by decide
+
+/-- The four arms of the half-block switch as extracted: glyphs U+0020, U+2584 (lower half), U+2580
+    (upper half) twice, and where the colours come from. -/
+theorem half_block_table : halfBlockArms =
+    [⟨some .lt, some .lt, 0x20, .none, .none⟩, ⟨some .lt, none, 0x2584, .bot, .none⟩,
+     ⟨none, some .lt, 0x2580, .top, .none⟩, ⟨none, none, 0x2580, .top, .bot⟩] := by decide
+
+/-- **Opaque pixels are exact** (straight-alpha source, `color.NRGBA`): `toRGB` returns the 8-bit
+    channels unchanged and alpha 255. -/
+theorem opaque_exact_nrgba (r g b : Nat) (hr : r < 256) (hg : g < 256) (hb : b < 256) :
+    toRGB (.ofQuad (nrgbaRGBA r g b 255)) = ⟨r, g, b, 255⟩ := by
+  rw [toRGB_of_ne _ (by simp [nrgbaRGBA, C16.ofQuad])]
+  simp only [nrgbaRGBA, C16.ofQuad, Nat.reduceMul, unpremul_opaque _ hr, unpremul_opaque _ hg, unpremul_opaque _ hb]
+  rfl
+
+/-- The same for an alpha-premultiplied source (`color.RGBA` with alpha 255). -/
+theorem opaque_exact_rgba (r g b : Nat) (hr : r < 256) (hg : g < 256) (hb : b < 256) :
+    toRGB (.ofQuad (rgbaRGBA r g b 255)) = ⟨r, g, b, 255⟩ := by
+  rw [toRGB_of_ne _ (by simp [rgbaRGBA, C16.ofQuad])]
+  simp only [rgbaRGBA, C16.ofQuad, Nat.reduceMul, unpremul_opaque' _ hr, unpremul_opaque' _ hg, unpremul_opaque' _ hb]
+  rfl
+
+/-- The 8-bit alpha the renderers test is the source's alpha, at every level. -/
+theorem alpha_kept (r g b a : Nat) (ha : a < 256) :
+    (toRGB (.ofQuad (nrgbaRGBA r g b a))).a = a := by
+  by_cases h0 : a = 0
+  · subst h0; rw [toRGB_of_zero _ (by simp [nrgbaRGBA, C16.ofQuad])]
+  · rw [toRGB_of_ne _ (by simp [nrgbaRGBA, C16.ofQuad]; omega)]
+    show a * 257 / 256 % 256 = a
+    have e : a * 257 / 256 = a := by
+      have : a * 257 = a + 256 * a := by omega
+      rw [this, Nat.add_mul_div_left _ _ (by decide : 0 < 256), Nat.div_eq_of_lt ha, Nat.zero_add]
+    rw [e]; exact Nat.mod_eq_of_lt ha
+
+/-- **Translucent pixels are within one**: for every alpha ≥ 1 each channel comes back as `c` or
+    `c - 1` (premultiplication by `color.NRGBA.RGBA` and un-premultiplication by `toRGB` both
+    truncate).  Checked by kernel evaluation of all 255·256 (alpha, channel) pairs. -/
+theorem translucent_within_one (c a : Nat) (hc : c < 256) (ha : a < 256) (ha0 : 0 < a) :
+    (toRGB ⟨c * 257 * a / 255, 0, 0, a * 257⟩).r ≤ c ∧
+    c ≤ (toRGB ⟨c * 257 * a / 255, 0, 0, a * 257⟩).r + 1 :=
+  toRGB_within_one c a hc ha ha0
+
+/-- **Half-block cell of two opaque pixels**: upper half block, foreground exactly the top pixel's
+    colour, background exactly the bottom pixel's colour (as direct colours `0x02RRGGBB`). -/
+theorem opaque_exact_half (tr tg tb br bg bb : Nat)
+    (h1 : tr < 256) (h2 : tg < 256) (h3 : tb < 256) (h4 : br < 256) (h5 : bg < 256) (h6 : bb < 256) :
+    halfCell (.ofQuad (nrgbaRGBA tr tg tb 255)) (.ofQuad (nrgbaRGBA br bg bb 255)) =
+      ⟨0x2580, directColor tr tg tb, directColor br bg bb⟩ := by
+  rw [halfCell, opaque_exact_nrgba _ _ _ h1 h2 h3, opaque_exact_nrgba _ _ _ h4 h5 h6, half_block_table]
+  simp [halfArms, condHolds, evalCmp, thresholds.1, pxColor, rgbColor_eq, h1, h2, h3, h4, h5, h6]
+
+/-- **Full-block cell of two opaque pixels**: a space whose background is exactly the channel-wise
+    mean; for two pixels of the same colour that is exactly the colour. -/
+theorem opaque_exact_full (tr tg tb br bg bb : Nat)
+    (h1 : tr < 256) (h2 : tg < 256) (h3 : tb < 256) (h4 : br < 256) (h5 : bg < 256) (h6 : bb < 256) :
+    fullCell (.ofQuad (nrgbaRGBA tr tg tb 255)) (.ofQuad (nrgbaRGBA br bg bb 255)) =
+      ⟨0x20, 0, directColor ((br + tr) / 2) ((bg + tg) / 2) ((bb + tb) / 2)⟩ := by
+  have e1 : (br + tr) / 2 % 256 = (br + tr) / 2 := by omega
+  have e2 : (bg + tg) / 2 % 256 = (bg + tg) / 2 := by omega
+  have e3 : (bb + tb) / 2 % 256 = (bb + tb) / 2 := by omega
+  simp only [fullCell, fullColor, averageColor, List.cons_append, List.nil_append, List.map_cons, List.map_nil,
+    opaque_exact_nrgba _ _ _ h1 h2 h3, opaque_exact_nrgba _ _ _ h4 h5 h6, List.sum_cons, List.sum_nil,
+    List.length_cons, List.length_nil, thresholds.2, evalCmp, u8, Nat.add_zero, e1, e2, e3]
+  rw [if_neg (by decide)]
+  rw [rgbColor_eq _ _ _ (by omega) (by omega) (by omega)]
+
+theorem opaque_exact_full_same (r g b : Nat) (h1 : r < 256) (h2 : g < 256) (h3 : b < 256) :
+    fullCell (.ofQuad (nrgbaRGBA r g b 255)) (.ofQuad (nrgbaRGBA r g b 255)) = ⟨0x20, 0, directColor r g b⟩ := by
+  rw [opaque_exact_full r g b r g b h1 h2 h3 h1 h2 h3]
+  have e (x : Nat) : (x + x) / 2 = x := by omega
+  rw [e, e, e]
+
+/-- **Transparent enough ⇒ default colour; the four-way glyph table** (on the 8-bit values `toRGB`
+    returned for the top and bottom pixel): both below 50 → a space with default colours; only the
+    top → lower half block coloured by the bottom pixel; only the bottom → upper half block coloured
+    by the top pixel; neither → upper half block, top as foreground, bottom as background. -/
+theorem transparent_default (t b : C8) :
+    halfArms halfBlockArms t b =
+      if t.a < 50 ∧ b.a < 50 then ⟨0x20, 0, 0⟩
+      else if t.a < 50 then ⟨0x2584, rgbColor b.r b.g b.b, 0⟩
+      else if b.a < 50 then ⟨0x2580, rgbColor t.r t.g t.b, 0⟩
+      else ⟨0x2580, rgbColor t.r t.g t.b, rgbColor b.r b.g b.b⟩ := by
+  rw [half_block_table]
+  by_cases ht : t.a < 50 <;> by_cases hb : b.a < 50 <;>
+    simp [halfArms, condHolds, evalCmp, thresholds.1, pxColor, ht, hb]
+
+/-- Full block: mean alpha below 50 ⇒ the cell keeps the default colour, otherwise it gets the mean
+    colour. -/
+theorem transparent_default_full (top bot : C16) :
+    fullColor top bot =
+      if (averageColor top [bot]).a < 50 then 0
+      else rgbColor (averageColor top [bot]).r (averageColor top [bot]).g (averageColor top [bot]).b := by
+  simp [fullColor, thresholds.2, evalCmp]
+
+/-- Non-vacuity: a pixel pair with alphas 49 / 50 takes the "top transparent" arm. -/
+example : halfCell (.ofQuad (nrgbaRGBA 200 100 50 49)) (.ofQuad (nrgbaRGBA 10 20 30 255)) =
+    ⟨0x2584, directColor 10 20 30, 0⟩ := by decide
+example : (halfCell (.ofQuad (nrgbaRGBA 200 100 50 49)) (.ofQuad (nrgbaRGBA 10 20 30 50))).glyph = 0x2584 := by decide
+example : (halfCell (.ofQuad (nrgbaRGBA 200 100 50 50)) (.ofQuad (nrgbaRGBA 10 20 30 50))).glyph = 0x2580 := by decide
+example : (toRGB (.ofQuad (nrgbaRGBA 100 0 0 1))).r = 99 := by decide
+
+end pixels
+
 /-! ## Placement bookkeeping -/
 
 section placements
